@@ -109,7 +109,7 @@ pub fn gen_step(s: &mut Hub, rng: &mut Rng, ctx: &mut Ctx) -> Step {
     let mut actor = rng.idx(n);
     let now = s.now();
     let b = s.boundary();
-    let dur = s.model.duration;
+    let dur = s.model.duration.max(4); // (a changed contract may accept a duration of 0: keep the generator arithmetic defined)
     let due = now >= b;
     let liq = s.cfg.liquidity;
     let mut w = s.cfg.weights;
